@@ -11,3 +11,4 @@ def check(ctx, prog):
     dispatch.rule_arg_roles(ctx, prog)
     dispatch.rule_global_state(ctx, prog)
     model.rule_init_coherence(ctx, prog)
+    dispatch.rule_reinit(ctx, prog)
